@@ -233,6 +233,8 @@ def streams_for(prop, seed, tier, boost=1):
         add('table-big', big_table_stream())
         add('table-long-history', genmod.big_history_table_stream(4300))
         add('enc-failing', genmod.enc_fail_stream(G('ef'), n=15 * k))
+        add('coincidences', genmod.coincidence_stream(G('co')))
+        add('call-orders', genmod.call_order_stream())
         add('enc-big-tables', genmod.big_table_encoder_stream(G('bt')))
         add('high-index', genmod.high_index_limit_stream())
         add('dec-churn', genmod.dec_churn_stream(G('ch'), n=8 * k))
@@ -254,6 +256,8 @@ def streams_for(prop, seed, tier, boost=1):
         add('dec-update-runs', genmod.dec_updates_stream(G('du'), n=20 * k))
         add('dec-ambiguity', genmod.ambiguity_stream(G('am'), n_random=50 * k))
         add('dec-churn', genmod.dec_churn_stream(G('ch'), n=10 * k))
+        add('coincidences', genmod.coincidence_stream(G('co')))
+        add('call-orders', genmod.call_order_stream())
         add('table-big', big_table_stream())
         add('high-index', genmod.high_index_limit_stream())
         add('dec-setters', genmod.dec_setter_stream(G('ds'), n=15 * k))
@@ -267,6 +271,8 @@ def streams_for(prop, seed, tier, boost=1):
         add('dec-update-runs', genmod.dec_updates_stream(G('du'), n=10 * k))
         add('dec-ambiguity', genmod.ambiguity_stream(G('am'), n_random=20 * k))
         add('dec-churn', genmod.dec_churn_stream(G('ch'), n=8 * k))
+        add('coincidences', genmod.coincidence_stream(G('co')))
+        add('call-orders', genmod.call_order_stream())
         add('table-big', big_table_stream())
         add('high-index', genmod.high_index_limit_stream())
         add('dec-extra', genmod.dec_extra_catalogue(G('dx')))
@@ -280,6 +286,8 @@ def streams_for(prop, seed, tier, boost=1):
         add('dec-bounds', bounds_stream(G('b'), 40 * k))
         add('conn-big-binary', genmod.big_binary_conn_stream(G('bb')))
         add('high-index', genmod.high_index_limit_stream())
+        add('coincidences', genmod.coincidence_stream(G('co')))
+        add('call-orders', genmod.call_order_stream())
         add('dec-churn', genmod.dec_churn_stream(G('ch'), n=6 * k))
         add('dec-extra', genmod.dec_extra_catalogue(G('dx')))
         add('dec-update-runs', genmod.dec_updates_stream(G('du'), n=10 * k))
@@ -291,6 +299,8 @@ def streams_for(prop, seed, tier, boost=1):
         add('conn-evict', evict_stream(G('ev'), 12 * k))
         add('enc-big-tables', genmod.big_table_encoder_stream(G('bt')))
         add('api-forms-conn', genmod.api_forms_conn_stream(G('af'), n=15 * k))
+        add('coincidences', genmod.coincidence_stream(G('co')))
+        add('call-orders', genmod.call_order_stream())
         add('enccat-debuglog', genmod.with_debug_log(G('enccat').enc_catalogue()))
         add('conn-evict-debuglog', genmod.with_debug_log(evict_stream(G('ev2'), 6 * k)))
         if prop == 'C15':
@@ -303,6 +313,8 @@ def streams_for(prop, seed, tier, boost=1):
         add('enc-sizes', genmod.enc_size_stream(G('es'), n=60 * k))
         add('enc', G('enc').enc_stream(n_conn=30 * k))
         add('api-forms-conn', genmod.api_forms_conn_stream(G('af'), n=8 * k))
+        add('coincidences', genmod.coincidence_stream(G('co')))
+        add('call-orders', genmod.call_order_stream())
         add('enc-sizes-debuglog', genmod.with_debug_log(genmod.enc_size_stream(G('es2'), n=10 * k)))
         ops_, groups_ = genmod.dict_dupkey_stream()
         add('dict-and-generators', ops_)
@@ -314,6 +326,8 @@ def streams_for(prop, seed, tier, boost=1):
         add('api-forms-conn', genmod.api_forms_conn_stream(G('af'), n=20 * k))
         add('enc-big-tables', genmod.big_table_encoder_stream(G('bt')))
         add('conn-big-binary', genmod.big_binary_conn_stream(G('bb')))
+        add('coincidences', genmod.coincidence_stream(G('co')))
+        add('call-orders', genmod.call_order_stream())
         add('conn-debuglog', genmod.with_debug_log(G('conn2').conn_stream(n_conn=10 * k, start_id=700)))
         ops_, groups_ = genmod.dict_dupkey_stream()
         add('dict-and-generators', ops_)
